@@ -311,17 +311,20 @@ class StochasticActor(EvolvableNetwork):
             net_config=net_config,
         )
 
-    def scale_action(self, action: torch.Tensor) -> torch.Tensor:
+    def scale_action(self, action: ArrayOrTensor) -> ArrayOrTensor:
         """Scale the action to the action space.
 
         :param action: Action.
-        :type action: torch.Tensor
+        :type action: torch.Tensor | np.ndarray
         :return: Scaled action.
-        :rtype: torch.Tensor
+        :rtype: torch.Tensor | np.ndarray
         """
-        return self.action_low + (
-            0.5 * (action + 1.0) * (self.action_high - self.action_low)
-        )
+        low, high = self.action_low, self.action_high
+        if not isinstance(action, torch.Tensor):
+            # Training loops pass the numpy action returned by get_action()
+            low, high = low.cpu().numpy(), high.cpu().numpy()
+
+        return low + (0.5 * (action + 1.0) * (high - low))
 
     def forward(
         self, obs: TorchObsType, action_mask: Optional[ArrayOrTensor] = None
